@@ -146,7 +146,7 @@ class BaseProperty(base.BaseObject):
 
         self._dtype = None
         if dtypes.valid_type(dtype):
-            self._dtype = dtype
+            self._dtype = dtypes.canonical_type(dtype)
         else:
             print("Warning: Unknown dtype '%s'." % dtype)
 
@@ -267,6 +267,7 @@ class BaseProperty(base.BaseObject):
         # check if this is a valid type
         if not dtypes.valid_type(new_type):
             raise AttributeError("'%s' is not a valid type." % new_type)
+        new_type = dtypes.canonical_type(new_type)
         # we convert the value if possible
         old_type = self._dtype
         old_values = self._values
